@@ -466,6 +466,15 @@ func c01cJudge(c *c01cCase, impl *c01cOut, m *c01cModel) (sig, what string) {
 	if m.WF && !vh.CanonEq(c01cNorm(m.Result), c01cNorm(m.Sem)) {
 		return "C01:chain:model-engine-vs-sem", "engine run of the lowered graph differs from Chain.sem (oracle glue or theorem hypotheses)"
 	}
+	if m.WF && m.Result.Err != nil {
+		in := false
+		for _, a := range m.Alts {
+			in = in || vh.CanonEq(c01cNorm(a), c01cNorm(m.Result))
+		}
+		if !in {
+			return "C01:chain:model-alts", "the model's set of possible errors does not contain the error of its own in-order run (oracle glue)"
+		}
+	}
 	switch impl.Class {
 	case "panic", "hang", "dup-chunk-key":
 		return "C01:chain:" + impl.Class + ":" + mode, "chain run " + impl.Class + ": " + impl.Detail
@@ -613,9 +622,10 @@ func c01cCheck(ctx *vh.Ctx, cs []*c01cCase) error {
 // ---------- generator ----------
 
 type c01cGen struct {
-	r    *vh.Rand
-	name int
-	thor bool
+	r       *vh.Rand
+	name    int
+	thor    bool
+	noGraph bool // stream mode: no nested gcase graphs (their value-mode merge errors have no stream counterpart: C04's business)
 }
 
 func (g *c01cGen) kind() string {
@@ -633,7 +643,7 @@ func (g *c01cGen) body(flat bool, depth int, allowFail bool) c01cBody {
 		return c01cBody{Op: "fail", ID: g.r.Range(1, 9), Kind: g.kind()}
 	case g.r.Chance(8):
 		return c01cBody{Op: "pass", Kind: g.kind()}
-	case flat && depth > 0 && g.r.Chance(10):
+	case flat && depth > 0 && !g.noGraph && g.r.Chance(10):
 		for try := 0; try < 4; try++ {
 			gg := gcase.Gen(g.r, gcase.GenOpts{Mode: "mixed", MaxNodes: 3, Depth: 1, Cycles: true, FailPct: 0, BranchPct: 20})
 			if cg, err := gcase.Build(gg, "", nil); err == nil {
@@ -759,7 +769,7 @@ func (g *c01cGen) chain(depth, maxStages int, malformed bool, flat bool) *c01cCh
 func runC01Chain(ctx *vh.Ctx) error {
 	ctx.Res.Rule += " || chain family: random chain programs built with compose.NewChain (1-7 stages: lambda of the four kinds / passthrough / parallel with 2-4 keyed members / branch with 2-3 keyed members scripted by a table on hash(input), incl. failing conditions and unknown keys / nested gcase graph / nested chain; failing bodies; ~6% malformed on purpose: counted when Compile rejects them); Invoke (thorough: also Stream); non-trivial = ran, >=2 stages and (parallel | branch | nested); distinct by canonical case"
 	g := &c01cGen{r: ctx.Rng, thor: ctx.Thorough()}
-	n := ctx.N(2500, 40000)
+	n := ctx.N(6000, 40000)
 	start := time.Now()
 	limit := 9 * time.Second
 	if ctx.Thorough() {
@@ -773,10 +783,12 @@ func runC01Chain(ctx *vh.Ctx) error {
 			if ctx.Thorough() {
 				maxSt = 8
 			}
-			c := &c01cCase{Kind: "chain", Input: fmt.Sprintf("x%d", g.r.Intn(5)), C: g.chain(2, maxSt, g.r.Chance(6), true)}
+			c := &c01cCase{Kind: "chain", Input: fmt.Sprintf("x%d", g.r.Intn(5))}
 			if ctx.Thorough() && g.r.Chance(35) {
 				c.Mode = "stream"
 			}
+			g.noGraph = c.Mode == "stream"
+			c.C = g.chain(2, maxSt, g.r.Chance(6), true)
 			cs = append(cs, c)
 		}
 		if err := c01cCheck(ctx, cs); err != nil {
